@@ -195,6 +195,7 @@ func (x *Exec) inlineCall(f *frame, callee *ssa.Function, args []Val, fvs []Val)
 	}
 	// continue in the caller with the callee's exit state
 	st.live, st.cells, st.heap, st.allocTop = exit.live, exit.cells, exit.heap, exit.allocTop
+	x.skipRecouple = len(x.aliases) > 0
 	switch len(results) {
 	case 0:
 		return Val{}
